@@ -19,6 +19,8 @@ The proof uses the path lemma `BoolSys.lfp_path` at every dispatch, exactly like
 import OpenFGAVerif.Proofs.ListUsersSem
 import OpenFGAVerif.Proofs.DfsSound
 
+set_option linter.unusedSectionVars false
+
 namespace OpenFGAVerif.ListUsers
 open OpenFGAVerif.BoolSys
 
